@@ -1197,8 +1197,9 @@ def _roundtrip(rec, agent, rng, E):
             ctx = {"E": E, "width": width or 1, "agent_order": order}
             try:
                 homo = agent.assemble_homogeneous_outputs({a: outputs[a].copy() for a in order}, E)
-                want = {"agent": np.concatenate([outputs["agent_0"].reshape(E, -1), outputs["agent_1"].reshape(E, -1)], axis=0),
-                        "other": outputs["other_0"].reshape(E, -1)}
+                # agent-major, members in the order of agent_ids (the order in which their observations are batched)
+                want = {uid: np.concatenate([outputs[a].reshape(E, -1) for a in AGENTS if a.startswith(uid + "_")], axis=0)
+                        for uid in ("agent", "other")}
                 for uid, w in want.items():
                     g = np.asarray(homo.get(uid))
                     if g.shape != w.shape or not np.array_equal(g, w):
@@ -1587,9 +1588,19 @@ def cases(tier, seed):
     return out
 
 
+AGENT_ID_STYLES = (
+    ["agent_0", "agent_1", "other_0"],
+    ["agent_1", "other_0", "agent_0"],  # a shared-policy group declared in non-sorted order, interleaved with another group
+    ["agent_9", "agent_10", "other_0"],  # "agent_10" sorts before "agent_9"
+)
+
+
 def run_case(case):
+    global AGENTS
     rec = Recorder()
     fam = case["fam"]
+    # the agent ids of the multi-agent families (every helper reads the module-level list when it is called)
+    AGENTS = list(AGENT_ID_STYLES[int(case.get("seed", 0)) % 3 if fam in ("ippo", "mac") else 0])
     try:
         if fam == "prep":
             _run_prep(case, rec)
